@@ -65,3 +65,59 @@ pub proof fn lemma_append_run(a: Seq<u8>, ca: Seq<(u8, u8)>, r: Seq<u8>, cr: Seq
         }
     }
 }
+// ---- the decoder side: total functions of the byte stream ---------------------------------------------------------
+// every run of the stream is complete
+pub open spec fn xb_wf(bytes: Seq<u8>) -> bool
+    decreases bytes.len()
+{
+    if bytes.len() == 0 { true } else { let k = xb_run_len(bytes[0]); k <= bytes.len() && xb_wf(bytes.skip(k)) }
+}
+pub open spec fn xb_run_cells(bytes: Seq<u8>) -> Seq<(u8, u8)> {
+    Seq::new(xb_count(bytes[0]) as nat, |i: int| xb_run_cell(bytes, i))
+}
+// the cells of a stream of complete runs, in order
+pub open spec fn xb_cells(bytes: Seq<u8>) -> Seq<(u8, u8)>
+    decreases bytes.len()
+{
+    if bytes.len() == 0 { Seq::empty() } else {
+        let k = xb_run_len(bytes[0]);
+        if k <= bytes.len() { xb_run_cells(bytes) + xb_cells(bytes.skip(k)) } else { Seq::empty() }
+    }
+}
+pub proof fn lemma_decodes_wf(bytes: Seq<u8>, cells: Seq<(u8, u8)>)
+    requires decodes_to(bytes, cells),
+    ensures xb_wf(bytes), xb_cells(bytes) == cells,
+    decreases bytes.len()
+{
+    if bytes.len() > 0 {
+        let h = bytes[0]; let n = xb_count(h); let k = xb_run_len(h);
+        lemma_count_bounds(h);
+        lemma_decodes_wf(bytes.skip(k), cells.skip(n));
+        assert(xb_run_cells(bytes) =~= cells.take(n));
+        assert(cells.take(n) + cells.skip(n) =~= cells);
+    } else {
+        assert(cells =~= Seq::<(u8, u8)>::empty());
+    }
+}
+// where the n-th cell of the image data goes: row-major with the wrap of advance_pos
+pub open spec fn adv(w: int, p: (int, int)) -> (int, int) { if p.0 + 1 >= w { (0, p.1 + 1) } else { (p.0 + 1, p.1) } }
+pub open spec fn pos_at(w: int, n: nat) -> (int, int)
+    decreases n
+{
+    if n == 0 { (0, 0) } else { adv(w, pos_at(w, (n - 1) as nat)) }
+}
+pub open spec fn lex_lt(a: (int, int), b: (int, int)) -> bool { a.1 < b.1 || (a.1 == b.1 && a.0 < b.0) }
+pub proof fn lemma_pos_bounds(w: int, n: nat)
+    ensures 0 <= pos_at(w, n).0 <= n, 0 <= pos_at(w, n).1 <= n, w >= 1 ==> pos_at(w, n).0 < w,
+    decreases n
+{
+    if n > 0 { lemma_pos_bounds(w, (n - 1) as nat); }
+}
+pub proof fn lemma_pos_mono(w: int, n: nat, m: nat)
+    requires n < m,
+    ensures lex_lt(pos_at(w, n), pos_at(w, m)),
+    decreases m
+{
+    lemma_pos_bounds(w, (m - 1) as nat);
+    if n < m - 1 { lemma_pos_mono(w, n, (m - 1) as nat); }
+}
